@@ -50,7 +50,7 @@ func VH_C15_conversion() {
 	nobj := zz.Len("nobjects", 1, 2)
 	var objs []runtime.RawExtension
 	for i := 0; i < nobj; i++ {
-		objs = append(objs, runtime.RawExtension{Raw: []byte(from)})
+		objs = append(objs, conversion.VObject(from))
 	}
 	uid := zz.OneOf("uid", "uid-1", "uid-2")
 	review := apixv1.ConversionReview{Request: &apixv1.ConversionRequest{UID: types.UID(uid), DesiredAPIVersion: to, Objects: objs}}
@@ -80,7 +80,7 @@ func VH_C15_conversion() {
 		in := ""
 		if len(ctxs) == 1 && ctxs[0].ConversionReview != nil {
 			for _, o := range ctxs[0].ConversionReview.Request.Objects {
-				in += string(o.Raw) + ","
+				in += conversion.VObjectVersion(o) + ","
 			}
 			zz.Assert(ctxs[0].FromVersion != "" && ctxs[0].ToVersion != "", "context_names_the_rule")
 		}
@@ -102,7 +102,7 @@ func VH_C15_conversion() {
 		}
 		var conv []runtime.RawExtension
 		for i := 0; i < n; i++ {
-			conv = append(conv, runtime.RawExtension{Raw: []byte(target)})
+			conv = append(conv, conversion.VObject(target))
 		}
 		return &hook.Result{ConversionResponse: &conversion.Response{ConvertedObjects: conv}}, nil
 	}
@@ -159,7 +159,7 @@ func VH_C15_conversion() {
 		zz.Assert(success, "all_steps_succeeded_gives_success")
 		zz.Assert(len(resp.ConvertedObjects) == nobj, "as_many_objects_as_requested")
 		for _, o := range resp.ConvertedObjects {
-			zz.Assert(string(o.Raw) == to, "objects_have_the_desired_version")
+			zz.Assert(conversion.VObjectVersion(o) == to, "objects_have_the_desired_version")
 		}
 	} else {
 		zz.Assert(!success, "a_failed_step_fails_the_conversion")
